@@ -50,6 +50,8 @@ THEOREMS = [
     'C11.iso_pair_C12_E', 'C11.iso_alias', 'C11.normalized_idem_triclinic', 'C11.normalized_idem_cubic',
     'C11.normalized_idem_hexagonal', 'C11.normalized_idem_tetragonal', 'C11.normalized_idem_rhombohedral',
     'C11.normalized_idem_orthorhombic', 'C11.normalized_idem_isotropic', 'C11.is_normal_of_normalized',
+    'C11.normalized_idem_monoclinic', 'C11.sijkl_setter_roundtrip', 'C11.object_step', 'C11.object_reads_pure',
+    'C11.object_read_order', 'C11.object_set_overwrites', 'C11.object_refused_set',
 ]
 PARTIAL = {
     'transform_with_cleanups': 'transform_id/comp/inv, energy and moduli invariance and system_invariant_* are proved for '
@@ -254,7 +256,10 @@ def _unroll(stmts, env, arr, rank, tables, out, dim):
                 for k in t.keywords:
                     if k.arg != 'atol':
                         raise TranslationError(f'unsupported isclose keyword {k.arg}')
-                    atol = _num(k.value)
+                    if isinstance(k.value, ast.Name) and isinstance(env.get(k.value.id), tuple):
+                        atol = env[k.value.id]          # ('rel', lit): lit * max(1.0, abs(arr).max())
+                    else:
+                        atol = _num(k.value)
                 out.append((_sub_index(t.args[0], arr, rank, env, dim), _sub_index(t.args[1], arr, rank, env, dim),
                             'close', atol))
             elif isinstance(t, ast.Compare) and len(t.ops) == 1 and isinstance(t.ops[0], ast.Eq):
@@ -295,6 +300,8 @@ def _weighted_leaf(node, arr, rank, dim):
 def _setter4(fn, var, target):
     """Cijkl / Sijkl setter -> dict(max_assert, checks, table[(w, (i,j,k,l))])"""
     body = _body(fn)
+    if isinstance(body[0], ast.Assign) and len(body[0].targets) == 1 and isinstance(body[0].targets[0], ast.Name):
+        var = body[0].targets[0].id      # the name of the local is free
     _expect(body[0], f"{var} = np.asarray(value, dtype='float64')", fn.name + ' setter')
     if not (isinstance(body[1], ast.Assert) and ast.unparse(body[1].test) == f'{var}.shape == (3, 3, 3, 3)'):
         raise TranslationError(fn.name + ' setter: shape assertion missing')
@@ -303,9 +310,21 @@ def _setter4(fn, var, target):
     if rest and isinstance(rest[0], ast.Assert) and ast.unparse(rest[0].test) == f'{var}.max() > 0.0':
         max_assert = True
         rest = rest[1:]
+    env0 = {}
+    st = rest[0]
+    if isinstance(st, ast.Assign) and len(st.targets) == 1 and isinstance(st.targets[0], ast.Name) \
+            and isinstance(st.value, ast.BinOp) and isinstance(st.value.op, ast.Mult):
+        # `<name> = lit * max(1.0, np.abs(var).max())`: absolute tolerance that scales with the array's magnitude
+        if ast.unparse(st.value.right) != f'max(1.0, np.abs({var}).max())':
+            raise TranslationError(f'{fn.name} setter: tolerance statement not recognised: {ast.unparse(st)[:80]}')
+        f = _num(st.value.left)
+        if f < 0:
+            raise TranslationError('negative tolerance')
+        env0[st.targets[0].id] = ('rel', f)
+        rest = rest[1:]
     name, tab = _index_table(rest[0])
     checks = []
-    _unroll(rest[1:-1], {}, var, 4, {name: tab}, checks, 3)
+    _unroll(rest[1:-1], env0, var, 4, {name: tab}, checks, 3)
     last = rest[-1]
     if not (isinstance(last, ast.Assign) and ast.unparse(last.targets[0]) == f'self.{target}'):
         raise TranslationError(f'{fn.name} setter does not end in self.{target} = ...')
@@ -398,25 +417,97 @@ def _einsum_lean(out, summed, factors):
 
 
 def _transform(fn):
+    """`transform(self, axes, tol=lit)`: a straight-line data flow
+         axes --np.asarray(.., dtype='float64')--> array --axes_check--> T --einsum--> Q
+         (Q, self.Cijkl, Q) --einsum--> C ;  C[abs(C / C.max()) < tol] = 0.0 ;  return ElasticConstants(Cijkl=C)
+    The *names* of the temporaries and the splitting into statements are free (a small abstract interpreter tags
+    every local with the stage it holds); any other statement — in particular a conditional / early return, a
+    second use of `tol`, another clean-up — is refused, because it changes what is computed."""
     args = [a.arg for a in fn.args.args]
-    if args != ['self', 'axes', 'tol'] or len(fn.args.defaults) != 1:
+    if len(args) != 3 or args[0] != 'self' or len(fn.args.defaults) != 1 or fn.args.vararg or fn.args.kwarg \
+            or fn.args.kwonlyargs:
         raise TranslationError(f'transform: unexpected signature {args}')
+    p_axes, p_tol = args[1], args[2]
     tol = _num(fn.args.defaults[0])
+    env = {p_axes: ('raw',), p_tol: ('tol',)}
+    found = {}
+
+    def ev(node):
+        if isinstance(node, ast.Name):
+            if node.id not in env:
+                raise TranslationError(f'transform: unknown name {node.id}')
+            return env[node.id]
+        u = ast.unparse(node)
+        if u == 'self.Cijkl':
+            return ('C4',)
+        if isinstance(node, ast.Call):
+            f = ast.unparse(node.func)
+            if f == 'np.asarray' and len(node.args) == 1 and [k.arg for k in node.keywords] == ['dtype'] \
+                    and ast.unparse(node.keywords[0].value) in ("'float64'", 'float', 'np.float64'):
+                if ev(node.args[0])[0] not in ('raw', 'arr'):
+                    raise TranslationError('transform: np.asarray of something that is not the axes argument')
+                return ('arr',)
+            if f == 'axes_check' and len(node.args) == 1 and not node.keywords:
+                if ev(node.args[0])[0] != 'arr':
+                    raise TranslationError('transform: axes_check is not applied to the float64 axes array')
+                return ('T',)
+            if f == 'np.einsum':
+                names = {}
+                for a in node.args[1:]:
+                    tag = ev(a)[0]
+                    if tag not in ('T', 'Q', 'C4'):
+                        raise TranslationError(f'transform: einsum operand {ast.unparse(a)} not recognised')
+                    names[ast.unparse(a)] = {'T': 'T', 'Q': 'Q', 'C4': 'C'}[tag]
+                spec = _einsum(node, names)
+                kinds = sorted(nm for nm, _ in spec[2])
+                if kinds == ['T', 'T']:
+                    if 'q' in found:
+                        raise TranslationError('transform: Q computed twice')
+                    found['q'] = spec
+                    return ('Q',)
+                if kinds == ['C', 'Q', 'Q']:
+                    if 'c' in found:
+                        raise TranslationError('transform: C computed twice')
+                    found['c'] = spec
+                    return ('Crot', False)
+                raise TranslationError(f'transform: unexpected einsum operands {kinds}')
+        raise TranslationError(f'transform: unsupported expression `{u[:70]}`')
+
     body = _body(fn)
-    if len(body) != 6:
-        raise TranslationError('transform: unexpected number of statements')
-    _expect(body[0], "axes = np.asarray(axes, dtype='float64')", 'transform')
-    _expect(body[1], 'T = axes_check(axes)', 'transform')
-    if not (isinstance(body[2], ast.Assign) and ast.unparse(body[2].targets[0]) == 'Q'):
-        raise TranslationError('transform: Q = einsum(...) expected')
-    q = _einsum(body[2].value, {'T': 'T'})
-    if not (isinstance(body[3], ast.Assign) and ast.unparse(body[3].targets[0]) == 'C'):
-        raise TranslationError('transform: C = einsum(...) expected')
-    c = _einsum(body[3].value, {'Q': 'Q', 'self.Cijkl': 'C'})
+    done = False
+    for st in body:
+        if done:
+            raise TranslationError('transform: statements after return')
+        if isinstance(st, ast.Assign) and len(st.targets) == 1 and isinstance(st.targets[0], ast.Name):
+            env[st.targets[0].id] = ev(st.value)
+            continue
+        if isinstance(st, ast.Assign) and len(st.targets) == 1 and isinstance(st.targets[0], ast.Subscript) \
+                and isinstance(st.targets[0].value, ast.Name):
+            nm = st.targets[0].value.id
+            if env.get(nm) != ('Crot', False):
+                raise TranslationError(f'transform: clean-up of `{nm}` which is not the (uncleaned) rotated tensor')
+            want = f'{nm}[abs({nm} / {nm}.max()) < {p_tol}] = 0.0'
+            if ast.unparse(st) != want:
+                raise TranslationError(f'transform: expected `{want}`, found `{ast.unparse(st)[:80]}`')
+            env[nm] = ('Crot', True)
+            for k, v in list(env.items()):      # aliases of the same array are cleaned too
+                if v == ('Crot', False) and k != nm:
+                    raise TranslationError('transform: aliased rotated tensor')
+            continue
+        if isinstance(st, ast.Return):
+            v = st.value
+            if not (isinstance(v, ast.Call) and ast.unparse(v.func) == 'ElasticConstants' and not v.args
+                    and len(v.keywords) == 1 and v.keywords[0].arg == 'Cijkl'
+                    and isinstance(v.keywords[0].value, ast.Name) and env.get(v.keywords[0].value.id) == ('Crot', True)):
+                raise TranslationError(f'transform: unexpected return `{ast.unparse(st)[:80]}`')
+            done = True
+            continue
+        raise TranslationError(f'transform: unsupported statement `{ast.unparse(st)[:80]}`')
+    if not done or 'q' not in found or 'c' not in found:
+        raise TranslationError('transform: no `return ElasticConstants(Cijkl=<cleaned rotated tensor>)`')
+    q, c = found['q'], found['c']
     if len(q[0]) != 4 or len(c[0]) != 4 or any(len(ix) != 2 for _, ix in q[2]) or any(len(ix) != 4 for _, ix in c[2]):
         raise TranslationError('transform: einsum ranks')
-    _expect(body[4], 'C[abs(C / C.max()) < tol] = 0.0', 'transform')
-    _expect(body[5], 'return ElasticConstants(Cijkl=C)', 'transform')
     return tol, q, c
 
 
@@ -521,8 +612,18 @@ def _voigt_tables(src, axes_src):
           f'def cij9SetSlice : Nat × Nat := {_tup(cij9["slice"])}', '']
     for nm, d in (('cijkl', c4), ('sijkl', s4)):
         kind, text = checks(d['checks'])
-        if kind != ('close', None):
-            raise TranslationError(f'{nm} setter assertions are not plain isclose')
+        if kind[0] != 'close':
+            raise TranslationError(f'{nm} setter assertions are not isclose')
+        if kind[1] is None:
+            a_rel, a_val = False, atol
+        elif isinstance(kind[1], tuple):
+            a_rel, a_val = True, kind[1][1]
+        else:
+            a_rel, a_val = False, kind[1]
+        P += [f'/-- `{nm.capitalize()}` setter: `atol` of the symmetry assertions; if `…Rel` it is multiplied by '
+              '`max(1.0, abs(x).max())`. -/',
+              f'def {nm}SetAtol {KCLS} : K := {lit(a_val)}',
+              f'def {nm}SetAtolRel : Bool := {"true" if a_rel else "false"}']
         P += [f'/-- `{nm.capitalize()}` setter: is `assert value.max() > 0.0` present. -/',
               f'def {nm}SetMaxAssert : Bool := {"true" if d["max_assert"] else "false"}',
               f'/-- `{nm.capitalize()}` setter: unrolled `assert np.isclose(x[p], x[q])`. -/',
@@ -927,7 +1028,7 @@ def _estimates(methods):
     return '\n'.join(T)
 
 
-SYSTEMS = ['triclinic', 'isotropic', 'cubic', 'hexagonal', 'tetragonal', 'rhombohedral', 'orthorhombic']
+SYSTEMS = ['triclinic', 'isotropic', 'cubic', 'hexagonal', 'tetragonal', 'rhombohedral', 'orthorhombic', 'monoclinic']
 
 
 def _normalized(methods, have):
@@ -936,7 +1037,7 @@ def _normalized(methods, have):
     if fn is None or [a.arg for a in fn.args.args] != ['self', 'crystal_system']:
         raise TranslationError('normalized_as: signature')
     T = []
-    for sysname in SYSTEMS + ['monoclinic']:
+    for sysname in SYSTEMS:
         ex = SymExec(methods, [])
         ex.conc['crystal_system'] = sysname
         ex.uses_s = False
@@ -1519,7 +1620,7 @@ def correspond(ctx):
         line = cm.frs(C)
         cond = float(np.linalg.cond(C))
         info = {'Cij': C.tolist()}
-        for sysname in SYSTEMS + ['monoclinic', 'nonsense']:
+        for sysname in SYSTEMS + ['nonsense', 'Cubic']:
             r, e = _call(lambda: ec.normalized_as(sysname).Cij)
             B.add('normalized:' + sysname, f'normalized {sysname} ' + line, r, e,
                   _Cmp(1e-11 * (cond if sysname == 'isotropic' else 1.0), thresh=1e-9), info)
@@ -1534,6 +1635,156 @@ def correspond(ctx):
                 B.add(f'{which}:{style}', f'estimate {which} {style} ' + line, r, e,
                       _Cmp(1e-12 * (1.0 if style == 'Voigt' else cond)), info, strip_ok=False)
     B.run()
+
+
+    # ---- 7. unit systems / weak anisotropy / small rotations (the model is exact at every scale) ------
+    kinds = ['isotropic', 'cubic', 'hexagonal', 'tetragonal', 'rhombohedral', 'orthorhombic']
+    for it in range(ctx.n(60, 700)):
+        ex = SCALE_EXPS[(it // 2) % len(SCALE_EXPS)] if it % 2 == 0 else rng.choice([0, 0, 7, -7])
+        if it % 3 == 0:
+            C, what = _spd_dyadic(rng, 2), 'spd'
+        else:
+            C = _near_symmetric(rng, kinds[it % len(kinds)], ANISO[(it // 3) % len(ANISO)], dy=True)
+            what = 'near-' + kinds[it % len(kinds)]
+        C = C * 2.0 ** ex
+        ec, e0 = _call(lambda: EC(Cij=C.copy()))
+        if e0 is not None:
+            B.add('scale:ctor', 'setcij ' + cm.frs(C), None, e0, _exact, {'Cij': C.tolist()})
+            continue
+        info = {'Cij': C.tolist(), 'scale_exp': ex, 'what': what}
+        mode = it % 4
+        if mode in (0, 1):
+            R, cmp = sp[rng.randrange(len(sp))], _exact
+        elif mode == 2:
+            R, cmp = _quat_rot(rng)[0], _Cmp(1e-9, thresh=1e-8)
+        else:
+            R, cmp = _small_rotation(rng, 10.0 ** rng.uniform(-7, -2)), _Cmp(1e-9, thresh=1e-8)
+        norms = np.linalg.norm(R, axis=1)
+        r, e = _call(lambda: ec.transform(R).Cij)
+        B.add('transform:scale:' + ['perm', 'perm', 'quat', 'small-angle'][mode],
+              'transform ' + cm.frs(C) + ' ' + cm.frs(R) + ' ' + cm.frs(norms), r, e, cmp, {**info, 'axes': R.tolist()})
+        line = cm.frs(C)
+        if it % 2 == 0:
+            cond = float(np.linalg.cond(C))
+            r, e = _call(lambda: ec.Sijkl)
+            B.add('sijkl:scale', 'sijkl ' + line, r, e, _Cmp(1e-11 * cond), info)
+            S4 = r
+            if e is None:
+                r, e = _call(lambda: EC(Sijkl=S4).Cij)
+                B.add('setsijkl:scale', 'setsijkl ' + cm.frs(S4), r, e, _Cmp(1e-10 * cond, thresh=1e-9), info)
+            for sysname in ('isotropic', 'cubic', 'hexagonal', 'monoclinic'):
+                r, e = _call(lambda: [1.0 if ec.is_normal(sysname) else 0.0])
+                B.add('is_normal:scale', f'isnormal {sysname} {line} {cm.fr(1e-4)} {cm.fr(1e-4)}', r, e, _exact, info,
+                      strip_ok=False)
+    B.run()
+
+    # ---- 8. one object, sequences of operations (driver op `seq`: the Lean object model) --------------
+    for it in range(ctx.n(50, 600)):
+        _correspond_sequence(ctx, rng, it)
+
+
+_SEQ_READS = [('get', 'cij'), ('get', 'sij'), ('get', 'cij9'), ('get', 'cijkl'), ('get', 'sijkl'),
+              ('est', 'bulk', 'Voigt'), ('est', 'bulk', 'Reuss'), ('est', 'bulk', 'Hill'), ('est', 'shear', 'Voigt'),
+              ('est', 'shear', 'Reuss'), ('est', 'shear', 'Hill'), ('est', 'shear', 'Other')] \
+    + [('norm', s) for s in SYSTEMS] + [('isn', s) for s in SYSTEMS] + [('tr',)] * 4
+
+
+def _correspond_sequence(ctx, rng, it):
+    """a random sequence of setters (incl. refused ones and slightly changed values) and reads on ONE real object and
+    on the Lean object model (`run`), compared observation by observation."""
+    np = _np()
+    import atomman as am
+    EC = am.ElasticConstants
+    ec = EC()
+    toks, obs, descr = [], [], []
+    exact_state = True
+    C = _spd_dyadic(rng, 3) * 2.0 ** rng.choice([0, 0, 0, 10, -10, -33, 33])
+    sp = _signed_perms()
+
+    def setter():
+        nonlocal C, exact_state
+        kind = rng.choice(['cij', 'cij', 'sij', 'cij9', 'cijkl', 'sijkl', 'named', 'bad'])
+        how = rng.randrange(4)
+        if how == 0:       # slightly different tensor
+            a, b = rng.sample(range(6), 2)
+            C = C.copy()
+            C[a, b] = C[b, a] = C[a, b] + float(C.max()) * 2.0 ** -rng.choice([8, 14, 20, 27])
+        elif how == 1:     # another tensor / another unit system
+            C = _spd_dyadic(rng, 3) * 2.0 ** rng.choice([0, 3, -17, 20])
+        donor = EC(Cij=C.copy())
+        if kind == 'bad':
+            V = C.copy()
+            V[0, 1] += 0.5 * float(C.max())
+            f, tk = (lambda: setattr(ec, 'Cij', V)), 'set cij ' + cm.frs(V)
+        elif kind == 'named':
+            sysname = rng.choice(['cubic', 'hexagonal', 'tetragonal', 'orthorhombic', 'monoclinic'])
+            vals = {k: cm.dyadic(rng, 4, 12, 3) if k[1] == k[2] else cm.dyadic(rng, -1.5, 1.5, 3)
+                    for k in SYS_KEYS[sysname]}
+            tk = 'set named ' + _ctor_line(ctx, list(vals), vals)[5:]
+            f = lambda: ec.__init__(**vals)          # noqa: E731
+            Cn, en = _call(lambda: EC(**vals).Cij)
+            if en is None:
+                C = Cn
+        else:
+            attr = {'cij': 'Cij', 'sij': 'Sij', 'cij9': 'Cij9', 'cijkl': 'Cijkl', 'sijkl': 'Sijkl'}[kind]
+            V = getattr(donor, attr)
+            f, tk = (lambda: setattr(ec, attr, V.copy())), f'set {kind} ' + cm.frs(V)
+            if kind in ('sij', 'sijkl'):
+                exact_state = False
+        return f, tk, 'set ' + kind
+
+    def reader():
+        op = rng.choice(_SEQ_READS)
+        if op[0] == 'get':
+            nm = {'cij': 'Cij', 'sij': 'Sij', 'cij9': 'Cij9', 'cijkl': 'Cijkl', 'sijkl': 'Sijkl'}[op[1]]
+            return (lambda: getattr(ec, nm)), ' '.join(op), ' '.join(op)
+        if op[0] == 'est':
+            return (lambda: [getattr(ec, op[1])(op[2])]), ' '.join(op), ' '.join(op)
+        if op[0] == 'norm':
+            return (lambda: ec.normalized_as(op[1]).Cij), ' '.join(op), ' '.join(op)
+        if op[0] == 'isn':
+            return (lambda: [1.0 if ec.is_normal(op[1]) else 0.0]), f'isn {op[1]} {cm.fr(1e-4)} {cm.fr(1e-4)}', ' '.join(op)
+        R = sp[rng.randrange(len(sp))] if rng.random() < 0.6 else _quat_rot(rng)[0] * rng.choice([1.0, 2.0])
+        return (lambda: ec.transform(R).Cij), 'tr ' + cm.frs(R) + ' ' + cm.frs(np.linalg.norm(R, axis=1)), 'tr'
+
+    nops = rng.randint(4, 10)
+    conds = []
+    for k in range(nops):
+        f, tk, d = setter() if (k == 0 and rng.random() < 0.9) or (k > 0 and rng.random() < 0.3) else reader()
+        r, e = _call(f)
+        toks.append(tk)
+        descr.append(d)
+        obs.append((None if d.startswith('set') else r, e))
+        cur = ec.Cij
+        conds.append(float(np.linalg.cond(cur)) if np.any(cur) else 1.0)
+    line = 'seq ' + ' ; '.join(toks)
+    ctx.stats.case('object:sequence', line, sample={'op': 'seq', 'ops': descr})
+    out = ctx.driver.ask(line)
+    parts = [p.strip() for p in out.split('|')]
+    rep = {'op': 'seq', 'ops': descr, 'line': line if len(line) < 6000 else line[:6000] + '…'}
+    if len(parts) != nops:
+        ctx.disagree('object:sequence', f'model answered {out[:80]!r} to a sequence of {nops} operations', rep)
+        return
+    for k, ((r, e), part, d) in enumerate(zip(obs, parts, descr)):
+        if e is not None or part.startswith('err:'):
+            if e != part:
+                ctx.disagree('object:sequence:' + d.split()[0], f'operation {k} ({d}) after {descr[:k]}: implementation '
+                             f'{"raised " + e if e else "returned a value"}, model {part[:40]}', rep)
+                return
+            continue
+        if r is None:
+            continue
+        model = _vals(part[2:].strip())
+        flat = np.asarray(r, dtype=float).ravel().tolist()
+        cond = max(conds[:k + 1])
+        cmp = _exact if (exact_state and d in ('get cij', 'get cij9', 'get cijkl')) else _Cmp(1e-9 * cond, thresh=1e-8)
+        if d.startswith('isn'):
+            cmp = _exact
+        if not cmp(flat, model):
+            dmax = max((abs(a - float(m)) for a, m in zip(flat, model)), default=float('nan'))
+            ctx.disagree('object:sequence:' + d.split()[0], f'operation {k} ({d}) after {descr[:k]} on one object differs '
+                         f'from the model (max abs diff {dmax:.3e})', {**rep, 'impl': flat[:40], 'model': [str(m) for m in model][:40]})
+            return
 
 
 _CACHE = {}
@@ -1700,8 +1951,11 @@ def _check_rotation_clauses(ctx, ec, R, R2, eps, info, tag):
     except Exception as e:  # noqa
         ctx.violate('transform:raises', f'{tag}: transform raised {type(e).__name__}: {e}', rep)
         return
-    if not np.array_equal(eid.Cij, c):
-        ctx.violate('transform:identity', f'{tag}: transform(identity) changes Cij', rep)
+    # identity axes: the einsums are exact (0/1 factors); only the documented clean-up (|C/Cmax| < 1e-8 -> 0) may act
+    ci = eid.Cij
+    keep = np.abs(c) >= 1e-8 * mx * (1 + 1e-6)
+    if not np.array_equal(ci[keep], c[keep]) or np.any((ci[~keep] != 0.0) & (ci[~keep] != c[~keep])):
+        ctx.violate('transform:identity', f'{tag}: transform(identity) changes Cij beyond the 1e-8 clean-up', rep)
     if not np.array_equal(ec.Cij, c):
         ctx.violate('transform:mutates', f'{tag}: transform changes the object it is called on', rep)
     # axes are directions: positive rescaling of the rows must not matter
@@ -1777,6 +2031,219 @@ def _system_consts(rng, sysname):
     if sysname.startswith('hexagonal') or sysname.startswith('rhombohedral'):
         vals['C12'] = min(vals['C12'], vals['C11'] - 2.0)
     return vals
+
+
+# ---- unit systems, near-symmetric tensors, small rotations, ill-conditioned tensors -----------------------
+# Powers of two: rescaling a float tensor by 2^k is exact, so the SAME material is presented in unit systems whose
+# numbers run from ~1e-12 to ~1e+12 (GPa ~ 1e2, Pa ~ 1e11, eV/A^3 ~ 1, Mbar ~ 1, "atomic" ~ 1e-3 ...).  Every
+# clause is evaluated at a tolerance relative to the tensor's own magnitude (`_rot_tol(mx)`), never absolute.
+SCALE_EXPS = [-40, -36, -30, -27, -23, -20, -17, -14, -13, -12, -10, -7, -3, 3, 7, 10, 14, 17, 20, 27, 33, 37, 40]
+ANISO = [1e-9, 1e-8, 1e-7, 1e-6, 1e-5, 3e-5, 1e-4, 3e-4, 1e-3, 1e-2]
+
+
+def _template(kind, v):
+    """6x6 of a crystal system written out independently of the code under test (standard settings)."""
+    np = _np()
+    M = np.zeros((6, 6))
+
+    def put(a, b, x):
+        M[a, b] = M[b, a] = x
+    if kind == 'isotropic':
+        lam, mu = v['lambda'], v['mu']
+        for i in range(3):
+            for j in range(3):
+                M[i, j] = lam + 2 * mu if i == j else lam
+            M[i + 3, i + 3] = mu
+    elif kind == 'cubic':
+        for i in range(3):
+            for j in range(3):
+                M[i, j] = v['C11'] if i == j else v['C12']
+            M[i + 3, i + 3] = v['C44']
+    elif kind in ('hexagonal', 'rhombohedral', 'tetragonal'):
+        put(0, 0, v['C11']); put(1, 1, v['C11']); put(2, 2, v['C33'])
+        put(0, 1, v['C12']); put(0, 2, v['C13']); put(1, 2, v['C13'])
+        put(3, 3, v['C44']); put(4, 4, v['C44'])
+        put(5, 5, v['C66'] if kind == 'tetragonal' else (v['C11'] - v['C12']) / 2)
+        if kind == 'rhombohedral':
+            put(0, 3, v['C14']); put(1, 3, -v['C14']); put(4, 5, v['C14'])
+        if kind == 'tetragonal':
+            put(0, 5, v.get('C16', 0.0)); put(1, 5, -v.get('C16', 0.0))
+    elif kind == 'orthorhombic':
+        for k, x in v.items():
+            put(int(k[1]) - 1, int(k[2]) - 1, x)
+    else:
+        raise ValueError(kind)
+    return M
+
+
+def _near_symmetric(rng, kind, eps, dy=False):
+    """a tensor of the crystal system `kind` plus eps*max times a general symmetric perturbation: weakly
+    anisotropic / weakly lower-symmetric materials (polycrystal texture, strained cubic crystal, alloy ...)."""
+    np = _np()
+
+    def val(lo, hi):
+        return cm.dyadic(rng, lo, hi, 3) if dy else rng.uniform(lo, hi)
+    if kind == 'isotropic':
+        base = _template(kind, {'lambda': val(1, 8), 'mu': val(1, 6)})
+    else:
+        keys = {'cubic': ['C11', 'C12', 'C44'], 'hexagonal': ['C11', 'C12', 'C13', 'C33', 'C44'],
+                'rhombohedral': ['C11', 'C12', 'C13', 'C14', 'C33', 'C44'],
+                'tetragonal': ['C11', 'C12', 'C13', 'C16', 'C33', 'C44', 'C66'],
+                'orthorhombic': ['C11', 'C12', 'C13', 'C22', 'C23', 'C33', 'C44', 'C55', 'C66']}[kind]
+        v = {}
+        for k in keys:
+            i, j = int(k[1]), int(k[2])
+            v[k] = val(8, 14) * (0.5 if i > 3 else 1.0) if i == j else (val(1, 4) if j <= 3 else val(-1, 1))
+        base = _template(kind, v)
+    P = np.zeros((6, 6))
+    for a in range(6):
+        for b in range(a, 6):
+            P[a, b] = P[b, a] = val(-1, 1)
+    e = 2.0 ** round(math.log2(eps)) if dy else eps
+    return base + e * float(base.max()) * P
+
+
+def _small_rotation(rng, angle):
+    """rotation by `angle` about a random axis (Rodrigues); orthogonal to rounding"""
+    np = _np()
+    n = np.array([rng.gauss(0, 1) for _ in range(3)])
+    n /= np.linalg.norm(n)
+    Kx = np.array([[0, -n[2], n[1]], [n[2], 0, -n[0]], [-n[1], n[0], 0]])
+    return np.eye(3) + math.sin(angle) * Kx + (1 - math.cos(angle)) * (Kx @ Kx)
+
+
+def _spd_cond(rng, cond):
+    """SPD with prescribed condition number: nearly incompressible / nearly unstable materials"""
+    np = _np()
+    G = np.array([[rng.gauss(0, 1) for _ in range(6)] for _ in range(6)])
+    Q, _ = np.linalg.qr(G)
+    ev = np.array([cond ** (-k / 5.0) for k in range(6)])
+    rng.shuffle(ev)
+    C = (Q * ev) @ Q.T
+    C = (C + C.T) / 2
+    return C * rng.choice([1.0, 100.0])
+
+
+# ---- one object, many reads: order independence, purity, no aliasing, setters overwrite -------------------
+READ_NAMES = ['Cij', 'Sij', 'Cij9', 'Cijkl', 'Sijkl', 'bulk', 'shear', 'normalized_as', 'is_normal', 'transform', 'str']
+_READ_AXES = [[2.0, 1.0, 2.0], [-2.0, 2.0, 1.0], [-1.0, -2.0, 2.0]]      # a proper rotation with rows of length 3
+
+
+def _read(ec, name):
+    """one observation of the object `ec` as a float array (exceptions are observations too)"""
+    np = _np()
+
+    def go():
+        if name in ('Cij', 'Sij', 'Cij9', 'Cijkl', 'Sijkl'):
+            return getattr(ec, name)
+        if name in ('bulk', 'shear'):
+            return np.array([getattr(ec, name)(s) for s in ('Voigt', 'Reuss', 'Hill')] + [getattr(ec, name)()])
+        if name == 'normalized_as':
+            return np.array([ec.normalized_as(s).Cij for s in SYSTEMS])
+        if name == 'is_normal':
+            return np.array([1.0 if ec.is_normal(s) else 0.0 for s in SYSTEMS])
+        if name == 'transform':
+            return ec.transform(np.array(_READ_AXES)).Cij
+        if name == 'str':
+            return np.array([float(len(str(ec)))])
+        raise KeyError(name)
+    r, e = _call(go)
+    return r if e is None else e
+
+
+def _same_obs(a, b):
+    np = _np()
+    if isinstance(a, str) or isinstance(b, str):
+        return isinstance(a, str) and isinstance(b, str) and a == b
+    return a.shape == b.shape and np.array_equal(a, b, equal_nan=True)
+
+
+def _scribble(x):
+    """overwrite a returned array: the object must not share memory with what it hands out"""
+    np = _np()
+    if isinstance(x, np.ndarray) and x.size and x.flags.writeable:
+        x[...] = -7.25
+
+
+def _check_read_order(ctx, make, orders, info, tag, scribble=True):
+    """`make()` builds a fresh object.  Reference: every read on its own fresh object.  Then each order in `orders`
+    is performed on ONE object; every read must equal the reference (the computation is deterministic, so the
+    comparison is exact), also after the caller overwrote previously returned arrays."""
+    ref = {}
+    for nm in READ_NAMES:
+        ref[nm] = _read(make(), nm)
+    for order in orders:
+        ec = make()
+        ctx.stats.case('oracle:read-order', (tag, tuple(order), repr(info)[:200]),
+                       sample={'op': 'readorder', **info, 'order': list(order)})
+        for k, nm in enumerate(order):
+            out = _read(ec, nm)
+            if not _same_obs(out, ref[nm]):
+                prev = ', '.join(order[:k]) or 'nothing'
+                ctx.violate(f'state:read-order:{nm}', f'{tag}: .{nm} read after [{prev}] on one object differs from '
+                            f'the same read on a fresh object' + (' (returned arrays were overwritten by the caller)'
+                                                                  if scribble else ''),
+                            {'op': 'readorder', **info, 'order': list(order), 'scribble': scribble})
+                break
+            if scribble:
+                _scribble(out)
+    return ref
+
+
+SETTER_KINDS = ['Cij', 'Sij', 'Cij9', 'Cijkl', 'Sijkl', 'named', 'init']
+
+
+def _apply_setter(ec, kind, donor, named=None):
+    """put the tensor of `donor` (a fresh object) into `ec` through one of the public entry points"""
+    if kind == 'named':
+        meth, kw = named
+        getattr(ec, meth)(**kw)
+    elif kind == 'init':
+        ec.__init__(Cij=donor.Cij)
+    else:
+        setattr(ec, kind, getattr(donor, kind))
+
+
+def _check_set_sequence(ctx, rng, C1, C2, info, tag, named=None, fixed=None):
+    """construct with C1 -> some reads -> set the slightly different C2 through a random entry point -> all reads in
+    a random order must equal those of a fresh object that got C2 the same way; a refused setter changes nothing."""
+    np = _np()
+    import atomman as am
+    EC = am.ElasticConstants
+    kind = rng.choice(SETTER_KINDS if named else SETTER_KINDS[:5] + ['init'])
+    pre = rng.sample(READ_NAMES, rng.randint(0, 4))
+    post = rng.sample(READ_NAMES, len(READ_NAMES))
+    if fixed is not None:
+        kind, pre, post = fixed
+    rep = {'op': 'setsequence', **info, 'Cij2': C2.tolist(), 'setter': kind, 'pre': pre, 'post': post,
+           'named': list(named) if named else None}
+    ctx.stats.case('oracle:set-sequence', (tag, kind, tuple(pre), tuple(post), cm.frs(C1), cm.frs(C2)), sample=rep)
+    donor = EC(Cij=C2.copy())
+    fresh = EC()
+    _, e0 = _call(lambda: _apply_setter(fresh, kind, donor, named))
+    ec = EC(Cij=C1.copy())
+    for nm in pre:
+        _scribble(_read(ec, nm))
+    _, e1 = _call(lambda: _apply_setter(ec, kind, EC(Cij=C2.copy()), named))
+    if e0 != e1:
+        ctx.violate(f'state:setter:{kind}', f'{tag}: setting through {kind} on a used object gives {e1}, on a fresh one {e0}', rep)
+        return
+    # references: one fresh object per read, which never saw C1 (or, after a refused set, only C1)
+    for k, nm in enumerate(post):
+        f2 = EC()
+        if e0 is None:
+            _apply_setter(f2, kind, EC(Cij=C2.copy()), named)
+        else:
+            f2 = EC(Cij=C1.copy())
+        want = _read(f2, nm)
+        got = _read(ec, nm)
+        if not _same_obs(got, want):
+            what = (f'after construction from C1, reads {pre} and then setting C2 through {kind}'
+                    if e0 is None else f'after a REFUSED set through {kind} ({e0})')
+            ctx.violate(f'state:stale:{nm}', f'{tag}: .{nm} {what} differs from a fresh object '
+                        f'(reads before it: {post[:k]})', rep)
+            return
+        _scribble(got)
 
 
 def search(ctx, broken):
@@ -1865,7 +2332,7 @@ def search(ctx, broken):
                                     f'tensor given as {sorted(vals)}: {d}', {'op': 'alt', 'kwargs': vals, 'alt': alt})
             # normalising a tensor of the system to that system changes nothing; normalisation is idempotent
             target = sysname.rstrip('6')
-            if target != 'monoclinic':
+            if True:
                 n1 = ec.normalized_as(target)
                 if not np.allclose(n1.Cij, c, rtol=1e-12, atol=1e-9 * mx):
                     ctx.violate(f'normalized:fixes:{target}', f'normalized_as({target!r}) changes a {sysname} tensor '
@@ -1928,6 +2395,210 @@ def search(ctx, broken):
                 ctx.violate(f'iso:{pair[0]},{pair[1]}', f'ElasticConstants({vals}) is not the isotropic tensor with '
                             f'lambda={float(lam)}, mu={float(mu)} (nu={nu:.4f}): {d}',
                             {'op': 'iso', 'kwargs': vals, 'lambda': str(lam), 'mu': str(mu)})
+    _search_scales(ctx, rng, big)
+    _search_objects(ctx, rng, big)
+
+
+def _search_scales(ctx, rng, big):
+    """unit systems (2^-40 .. 2^40), weakly anisotropic / weakly lower-symmetric tensors, small rotations,
+    ill-conditioned tensors: all clauses at a tolerance relative to the tensor's own magnitude."""
+    np = _np()
+    import atomman as am
+    EC = am.ElasticConstants
+    kinds = ['isotropic', 'cubic', 'hexagonal', 'tetragonal', 'rhombohedral', 'orthorhombic']
+    # (a) every exponent of the sweep once per run, general SPD and crystal tensors alternating
+    exps = list(SCALE_EXPS)
+    rng.shuffle(exps)
+    exps = exps[:ctx.n(12, len(exps))] * (1 if not ctx.thorough else 4)
+    for n, ex in enumerate(exps * big):
+        sc = 2.0 ** ex
+        if n % 3 == 0:
+            C, what = _spd_dyadic(rng, 3), 'dyadic SPD'
+        elif n % 3 == 1:
+            C, what = _spd_float(rng), 'float SPD'
+        else:
+            k = kinds[(n // 3) % len(kinds)]
+            C, what = _near_symmetric(rng, k, rng.choice(ANISO) * rng.uniform(1, 2)), 'nearly ' + k
+        C = C * sc
+        info = {'Cij': C.tolist(), 'scale_exp': ex}
+        ec, e = _call(lambda: EC(Cij=C.copy()))
+        if e is not None:
+            ctx.violate('ctor:scale', f'ElasticConstants(Cij=SPD * 2^{ex}) raised {e}', {'op': 'representations', **info})
+            continue
+        _check_tensor_clauses(ctx, ec, info, f'{what} * 2^{ex}')
+        _check_rotation_clauses(ctx, ec, _rand_rotation(rng), _rand_rotation(rng), _rand_strain(rng), info,
+                                f'{what} * 2^{ex}')
+    # (b) weakly anisotropic tensors at natural scale and a few others, general and small rotations
+    for n in range(ctx.n(14, 200) * big):
+        k = kinds[n % len(kinds)]
+        eps = ANISO[n % len(ANISO)] * rng.uniform(1, 2)
+        sc = 2.0 ** rng.choice([0, 0, 0, 7, -7, -13, 37])
+        C = _near_symmetric(rng, k, eps) * sc
+        R = _rand_rotation(rng) if n % 3 else _small_rotation(rng, 10.0 ** rng.uniform(-7, -2))
+        _check_rotation_clauses(ctx, EC(Cij=C.copy()), R, _rand_rotation(rng), _rand_strain(rng),
+                                {'Cij': C.tolist(), 'kind': k, 'eps': eps}, f'nearly {k} (eps {eps:.1e})')
+    # (c) small rotations of strongly anisotropic tensors
+    for n in range(ctx.n(8, 100) * big):
+        C = _spd_float(rng, rng.choice([1.0, 160.2176621]))
+        ang = 10.0 ** rng.uniform(-7.5, -1)
+        _check_rotation_clauses(ctx, EC(Cij=C.copy()), _small_rotation(rng, ang), _small_rotation(rng, ang * 3),
+                                _rand_strain(rng), {'Cij': C.tolist(), 'angle': ang}, f'rotation by {ang:.1e} rad')
+    # (d) ill-conditioned tensors (cond 1e2 .. 1e5)
+    for n in range(ctx.n(8, 100) * big):
+        cond = 10.0 ** rng.uniform(2, 5)
+        C = _spd_cond(rng, cond)
+        ec, e = _call(lambda: EC(Cij=C.copy()))
+        if e is not None:
+            continue
+        _check_tensor_clauses(ctx, ec, {'Cij': C.tolist()}, f'SPD with cond {cond:.1e}')
+    # (e) crystal systems and modulus pairs in other unit systems
+    for n in range(ctx.n(6, 60) * big):
+        ex = rng.choice(SCALE_EXPS)
+        sysname = list(SYS_KEYS)[n % len(SYS_KEYS)]
+        vals = {k: v * 2.0 ** ex for k, v in _system_consts(rng, sysname).items()}
+        ec, e = _call(lambda: EC(**vals))
+        info = {'system': sysname, 'kwargs': vals}
+        if e is not None:
+            ctx.violate(f'ctor:{sysname}', f'ElasticConstants({vals}) raised {e}', {'op': 'system', **info})
+            continue
+        _check_tensor_clauses(ctx, ec, info, f'{sysname} * 2^{ex}')
+        c = ec.Cij
+        mx = float(np.abs(c).max())
+        rots = _gen_rotations()
+        for rn in SYS_ROTS[sysname]:
+            if rn == 'rz':
+                continue
+            r, e = _call(lambda: ec.transform(rots[rn]).Cij)
+            ctx.stats.case('oracle:invariance', (sysname, rn, cm.frs(c)))
+            if e is not None or not np.allclose(r, c, rtol=1e-9, atol=_rot_tol(mx)):
+                d = 'raised ' + e if e else f'max diff {np.abs(r - c).max():.3e}'
+                ctx.violate(f'invariance:{sysname}', f'{sysname} tensor (* 2^{ex}) is not invariant under {rn}: {d}',
+                            {'op': 'system', **info, 'rotation': rn, 'axes': rots[rn].tolist()})
+        target = sysname.rstrip('6')
+        n1, e = _call(lambda: ec.normalized_as(target))
+        if target in SYSTEMS or e is None:
+            if e is not None or not np.allclose(n1.Cij, c, rtol=1e-12, atol=1e-9 * mx):
+                ctx.violate(f'normalized:fixes:{target}', f'normalized_as({target!r}) changes a {sysname} tensor '
+                            f'(* 2^{ex}): {e or np.abs(n1.Cij - c).max()}', {'op': 'system', **info})
+    names = ['C11', 'C12', 'C44', 'E', 'nu', 'K']
+    for n in range(ctx.n(6, 60) * big):
+        ex = rng.choice(SCALE_EXPS)
+        lam = Fraction(rng.randint(1, 64), 8) * Fraction(2) ** ex
+        mu = Fraction(rng.randint(1, 64), 8) * Fraction(2) ** ex
+        tr = _iso_truth(lam, mu)
+        want = np.array([[float(x) for x in r] for r in _iso_matrix(lam, mu)])
+        nu = float(tr['nu'])
+        for pair in itertools.combinations(names, 2):
+            vals = {k: float(tr[k]) for k in pair}
+            ctx.stats.case('oracle:iso-pair', (pair, str(lam), str(mu)))
+            r, e = _call(lambda: EC(**vals).Cij)
+            rtol = 1e-9 / (1 - 2 * nu) ** 2 if 'E' in pair else 1e-11 / (1 - 2 * nu)
+            if e is not None or not np.allclose(r, want, rtol=rtol, atol=rtol * float(want.max())):
+                d = 'raised ' + e if e else f'max diff {np.abs(r - want).max():.3e}'
+                ctx.violate(f'iso:{pair[0]},{pair[1]}', f'ElasticConstants({vals}) is not the isotropic tensor with '
+                            f'lambda={float(lam)}, mu={float(mu)} (nu={nu:.4f}): {d}',
+                            {'op': 'iso', 'kwargs': vals, 'lambda': str(lam), 'mu': str(mu)})
+
+
+def _search_objects(ctx, rng, big):
+    """object-level clauses: all representations of ONE object describe one tensor whatever was read before
+    (order, repetition, caller overwriting returned arrays) and whatever the object held before a set."""
+    np = _np()
+    import atomman as am
+    EC = am.ElasticConstants
+    pairs = [(a, b) for a in READ_NAMES for b in READ_NAMES]
+    for n in range(ctx.n(3, 12) * big):
+        if n % 3 == 0:
+            C = _spd_float(rng, rng.choice([1.0, 160.2176621]))
+        elif n % 3 == 1:
+            C = _spd_dyadic(rng, 3) * 2.0 ** rng.choice(SCALE_EXPS)
+        else:
+            C = _near_symmetric(rng, rng.choice(['isotropic', 'cubic', 'hexagonal']), rng.choice(ANISO))
+        info = {'Cij': C.tolist()}
+        orders = (pairs if n < 2 * big or ctx.thorough else rng.sample(pairs, 30)) \
+            + [rng.sample(READ_NAMES, len(READ_NAMES)) for _ in range(ctx.n(12, 120))] \
+            + [[rng.choice(READ_NAMES) for _ in range(14)] for _ in range(ctx.n(4, 40))]
+        _check_read_order(ctx, lambda: EC(Cij=C.copy()), orders, info, 'SPD object', scribble=True)
+    # objects built from named constants (their own code paths into the stored matrix)
+    for sysname in ['cubic', 'hexagonal', 'rhombohedral', 'monoclinic']:
+        vals = _system_consts(rng, sysname)
+        orders = [rng.sample(READ_NAMES, len(READ_NAMES)) for _ in range(ctx.n(4, 40))]
+        _check_read_order(ctx, lambda: EC(**vals), orders, {'kwargs': vals}, sysname + ' object')
+    # set -> read -> slightly different set -> read
+    for n in range(ctx.n(40, 600) * big):
+        C1 = _spd_float(rng, rng.choice([1.0, 160.2176621])) if n % 2 else _spd_dyadic(rng, 3)
+        C2 = C1.copy()
+        how = n % 5
+        if how == 0:        # one coupling changed by a small relative amount
+            a, b = rng.sample(range(6), 2)
+            C2[a, b] = C2[b, a] = C2[a, b] + rng.choice([1e-7, 1e-6, 1e-5, 1e-3]) * C1.max() * rng.uniform(1, 2)
+        elif how == 1:      # whole tensor rescaled slightly
+            C2 = C1 * (1.0 + rng.choice([1e-7, 1e-6, 1e-4, 1e-2]))
+        elif how == 2:      # one diagonal entry
+            a = rng.randrange(6)
+            C2[a, a] *= 1.0 + rng.choice([1e-7, 1e-5, 1e-3])
+        elif how == 3:      # a different tensor altogether
+            C2 = _spd_float(rng)
+        else:               # the same tensor again
+            pass
+        named = None
+        if n % 7 == 3:
+            sysname = rng.choice(['cubic', 'hexagonal', 'tetragonal', 'orthorhombic'])
+            named = (sysname, _system_consts(rng, sysname))
+        _check_set_sequence(ctx, rng, C1, C2, {'Cij': C1.tolist()}, 'set sequence', named)
+    for n in range(ctx.n(12, 120) * big):
+        C1 = _spd_float(rng)
+        _check_refused_set(ctx, rng, C1, {'Cij': C1.tolist()})
+
+
+def _check_refused_set(ctx, rng, C1, info, fixed=None):
+    """a setter that raises must leave the object as it was"""
+    np = _np()
+    import atomman as am
+    EC = am.ElasticConstants
+    ec = EC(Cij=C1.copy())
+    donor = EC(Cij=_spd_float(rng))
+    kind = fixed or rng.choice(['Cij', 'Cij-neg', 'Sij', 'Sij-singular', 'Cij9', 'Cijkl', 'Sijkl', 'cubic'])
+
+    def bad():
+        if kind == 'Cij':
+            v = donor.Cij
+            v[0, 1] += 0.5
+            ec.Cij = v
+        elif kind == 'Cij-neg':
+            ec.Cij = -donor.Cij
+        elif kind == 'Sij':
+            v = donor.Sij
+            v[2, 4] += 0.5 * abs(v).max()
+            ec.Sij = v
+        elif kind == 'Sij-singular':
+            ec.Sij = np.ones((6, 6))
+        elif kind == 'Cij9':
+            v = donor.Cij9
+            v[7, 1] += 1.0
+            ec.Cij9 = v
+        elif kind == 'Cijkl':
+            v = donor.Cijkl
+            v[0, 1, 2, 2] += 0.5
+            ec.Cijkl = v
+        elif kind == 'Sijkl':
+            v = donor.Sijkl
+            v[0, 1, 2, 2] += 0.5 * abs(v).max()
+            ec.Sijkl = v
+        else:
+            ec.cubic(C11=3.0, C12=1.0, C66=1.0)
+    pre = rng.sample(READ_NAMES, 2)
+    for nm in pre:
+        _read(ec, nm)
+    _, e = _call(bad)
+    rep = {'op': 'refusedset', **info, 'setter': kind}
+    ctx.stats.case('oracle:refused-set', (kind, cm.frs(C1)), sample=rep)
+    if e is None:
+        return      # accepting it is not against the property; only a refusal that half-happened is
+    for nm in rng.sample(READ_NAMES, len(READ_NAMES)):
+        if not _same_obs(_read(ec, nm), _read(EC(Cij=C1.copy()), nm)):
+            ctx.violate(f'state:refused:{nm}', f'.{nm} changed although the set through {kind} was refused ({e})', rep)
+            return
 
 
 def replay(ctx, payload):
@@ -1971,6 +2642,17 @@ def replay(ctx, payload):
                   [want[0, 0], want[0, 1], want[3, 3]])
             if e is not None or not np.allclose(out, want, rtol=1e-6):
                 ctx.violate('iso:' + ','.join(r['kwargs']), 'replayed case still fails', r)
+        elif op == 'readorder':
+            make = (lambda: am.ElasticConstants(Cij=np.array(r['Cij']))) if 'Cij' in r else \
+                (lambda: am.ElasticConstants(**r['kwargs']))
+            _check_read_order(ctx, make, [r['order']], {k: r[k] for k in ('Cij', 'kwargs') if k in r}, 'replay',
+                              scribble=r.get('scribble', True))
+        elif op == 'setsequence':
+            named = (r['named'][0], r['named'][1]) if r.get('named') else None
+            _check_set_sequence(ctx, random.Random(0), np.array(r['Cij']), np.array(r['Cij2']), {'Cij': r['Cij']},
+                                'replay', named, fixed=(r['setter'], r['pre'], r['post']))
+        elif op == 'refusedset':
+            _check_refused_set(ctx, random.Random(0), np.array(r['Cij']), {'Cij': r['Cij']}, fixed=r['setter'])
         else:
             search(ctx, True)
     except Exception as e:  # noqa
